@@ -11,7 +11,7 @@
        turn.rs                                  Turn, Turn::from_angle   (rows from Gen/TurnTable.v, regenerated from the source)
        turn_delay_access_model_engine.rs        get_headings, TurnDelayAccessModelEngine::get_delay
        turn_delay_access_model.rs               TurnDelayAccessModel::access_edge
-     model/access/default/{no_access_model,combined_model}.rs                                   -> AMNone, AMCombined
+     model/access/default/no_access_model.rs                                                    -> AMNone   (combined_model.rs is not modelled)
      algorithm/search/edge_traversal.rs         EdgeTraversal::{forward_traversal, reverse_traversal, total_cost}
      algorithm/search/a_star/bidirectional_ops.rs   reorient_reverse_route
      routee-compass/src/plugin/output/default/traversal/plugin.rs   construct_route_output: traversal_summary = serialize_state(last state)
@@ -124,21 +124,22 @@ Arguments Build_turn_delay {A} td_headings td_table td_unit td_feature.
 
 Inductive amodel (A : Type) : Type :=
 | AMNone
-| AMTurnDelay (t : turn_delay A)
-| AMCombined (l : list (amodel A)).
-Arguments AMNone {A}. Arguments AMTurnDelay {A} t. Arguments AMCombined {A} l.
+| AMTurnDelay (t : turn_delay A).
+Arguments AMNone {A}. Arguments AMTurnDelay {A} t.
 
 (* ---- EdgeTraversal ---- *)
 Record etrav (A : Type) : Type := { et_edge : nat; et_access : A; et_trav : A; et_state : list A }.
 Arguments et_edge {A} e. Arguments et_access {A} e. Arguments et_trav {A} e. Arguments et_state {A} e.
 Arguments Build_etrav {A} et_edge et_access et_trav et_state.
 
-(* CostModel::access_cost(prev_edge, next_edge, prev_state, next_state) and
-   CostModel::edge_cost(access pair, edge, prev_state, next_state) *)
+(* CostModel::access_cost(prev_edge, next_edge, prev_state, next_state),
+   CostModel::edge_cost(access pair, edge, prev_state, next_state) and Cost::enforce_strictly_positive *)
 Record cost_fns (A : Type) : Type :=
   { cf_access : nat -> nat -> list A -> list A -> res A;
-    cf_edge : option (nat * nat) -> nat -> list A -> list A -> res A }.
-Arguments cf_access {A} c. Arguments cf_edge {A} c. Arguments Build_cost_fns {A} cf_access cf_edge.
+    cf_edge : option (nat * nat) -> nat -> list A -> list A -> res A;
+    cf_floor : A -> A }.
+Arguments cf_access {A} c. Arguments cf_edge {A} c. Arguments cf_floor {A} c.
+Arguments Build_cost_fns {A} cf_access cf_edge cf_floor.
 
 Record instance (A : Type) : Type :=
   { i_graph : graph A; i_sm : smodel A; i_tm : tmodel A; i_am : amodel A; i_cost : cost_fns A }.
@@ -219,18 +220,12 @@ Section Model.
     match table_get (td_table td) t with Some d => Ok d | None => Err err_access end.
 
   (* AccessModel::access_edge for the edge pair (src, dst) *)
-  Fixpoint access_edge (am : amodel N) (sm : smodel N) (src dst : nat) (st : state) : res state :=
+  Definition access_edge (am : amodel N) (sm : smodel N) (src dst : nat) (st : state) : res state :=
     match am with
     | AMNone => Ok st
     | AMTurnDelay td =>
         do delay <- get_delay td src dst;
         add_time N sm st (td_feature td) delay (td_unit td)
-    | AMCombined l =>
-        (fix go (l : list (amodel N)) (st : state) : res state :=
-           match l with
-           | [] => Ok st
-           | m :: r => do st1 <- access_edge m sm src dst st; go r st1
-           end) l st
     end.
 
   (* the common body of forward_traversal / reverse_traversal: [this] is traversed, [pair] is the
@@ -275,8 +270,8 @@ Section Model.
        end)
       prev_state.
 
-  (* EdgeTraversal::total_cost *)
-  Definition total_cost (et : etrav N) : N := add (et_access et) (et_trav et).
+  (* EdgeTraversal::total_cost: Cost::enforce_strictly_positive(self.access_cost + self.traversal_cost) *)
+  Definition total_cost (c : cost_fns N) (et : etrav N) : N := cf_floor c (add (et_access et) (et_trav et)).
 
   (* a route built edge after edge: each edge is traversed from the state its predecessor left, with the
      predecessor as the access edge (the loop of reorient_reverse_route; also how a search tree grows a branch) *)
